@@ -222,6 +222,9 @@ type Options struct {
 	Dir     string // optional: reuse a directory (reopen)
 	// Leader: register waiters before applying (leader role); otherwise follower role
 	Leader bool
+	// EngineWAL keeps the engine's own write-ahead log (needed where checkpoints are taken)
+	EngineWAL  bool
+	KeepBackup int
 }
 
 type Store struct {
@@ -263,11 +266,15 @@ func Open(opt Options) *Store {
 		dir = fmt.Sprintf("/dev/shm/zrverif/store-%d/%d", os.Getpid(), atomic.AddUint64(&dirSeq, 1))
 	}
 	os.MkdirAll(dir, 0o755)
-	kvopts := &node.KVOptions{DataDir: dir, KeepBackup: 3, EngType: rockredis.EngType, ExpirationPolicy: opt.Policy, DataVersion: opt.DataVer}
+	keep := opt.KeepBackup
+	if keep == 0 {
+		keep = 3
+	}
+	kvopts := &node.KVOptions{DataDir: dir, KeepBackup: keep, EngType: rockredis.EngType, ExpirationPolicy: opt.Policy, DataVersion: opt.DataVer}
 	kvopts.RockOpts.EngineType = et
 	kvopts.RockOpts.BlockCache = 8 << 20
 	kvopts.RockOpts.WriteBufferSize = 4 << 20
-	kvopts.RockOpts.DisableWAL = true
+	kvopts.RockOpts.DisableWAL = !opt.EngineWAL
 	engine.FillDefaultOptions(&kvopts.RockOpts)
 	if et == "rocksdb" {
 		sc, err := engine.NewSharedEngConfig(kvopts.RockOpts)
@@ -285,6 +292,15 @@ func Open(opt Options) *Store {
 	s.DB = node.VerifRockDB(sm)
 	s.RN = node.VerifNewReadNode(sm, NS+"-0", opt.Policy)
 	return s
+}
+
+// Reset empties the store through the production path KVStore.CleanData (close, remove the
+// data directory, reopen): unlike Load(Dump{}) it also drops in-memory caches (HLL cache).
+func (s *Store) Reset() {
+	if err := s.SM.CleanData(); err != nil {
+		panic(err)
+	}
+	s.DB = node.VerifRockDB(s.SM)
 }
 
 func (s *Store) Close() {
